@@ -55,6 +55,12 @@ class HistGen:
             return "(let ((t %s)) (if (> t 1000000) 0 %s))" % (r.choice(vs), e)
         if fs and k < 0.5:
             return "(car (map %s (list %s)))" % (r.choice(fs), e)  # global pushed as a value
+        if k < 0.62:
+            # an inline lambda (lifted to a hidden global of its own by the compiler) that refers to globals
+            g_ = r.choice(fs) if fs and r.random() < 0.7 else None
+            v_ = r.choice(vs) if vs and r.random() < 0.6 else None
+            inner = "(+ y %d%s%s)" % (r.randint(0, 9), " (%s y)" % g_ if g_ else "", " " + v_ if v_ else "")
+            return "(car (map (lambda (y) %s) (list %s)))" % (inner, e)
         return e
 
     def unit(self):
@@ -67,6 +73,26 @@ class HistGen:
                 return "set!-native", "(set! %s %s)" % (n, nat)
             self.ops.add(n)
             return "define-native", "(define %s %s)" % (n, nat)
+        if 0.27 < k < 0.30 and self.fn_defined:
+            # a dispatch table: a global bound to a *container* of closures that call other globals, and a dispatcher
+            # compiled against it; table, dispatcher and the helpers are all redefined again and again later on
+            t = "tbl%d" % r.randint(0, 1)
+            dn = "d%d" % r.randint(0, 1)
+            fs = sorted(self.fn_defined)
+            entries = ["(lambda (x) (%s (+ x %d)))" % (r.choice(fs), r.randint(0, 5)) for _ in range(r.randint(2, 3))]
+            if self.var_defined and r.random() < 0.5:
+                entries.append("(lambda (x) (+ x %s))" % r.choice(sorted(self.var_defined)))
+            shape = r.choice(["list", "vector", "hash"])
+            if shape == "list":
+                tdef, ref = "(list %s)" % " ".join(entries), "(list-ref %s (modulo i %d))" % (t, len(entries))
+            elif shape == "vector":
+                tdef, ref = "(vector %s)" % " ".join(entries), "(vector-ref %s (modulo i %d))" % (t, len(entries))
+            else:
+                tdef = "(hash %s)" % " ".join("%d %s" % (j, e_) for j, e_ in enumerate(entries))
+                ref = "(hash-ref %s (modulo i %d))" % (t, len(entries))
+            self.fn_defined.add(dn)
+            self.tables = getattr(self, "tables", set()) | {t}
+            return "define-dispatch-table", "(define %s %s)\n(define (%s i) ((%s) i))" % (t, tdef, dn, ref)
         if k < 0.30 or not self.fn_defined:
             n = self.fname()
             u = "(define (%s x) %s)" % (n, self.body(n))
@@ -134,6 +160,60 @@ def gen_history(r, nunits):
     return units
 
 
+def gen_reload_scenario(r, n):
+    """The same small script (a constant and a function with an inline lambda) is reloaded n times; every version of the
+    function is kept under a name of its own and called again later, in between batches of unrelated definitions - the
+    way an embedding program reloads a user script.  (The recycler's threshold wraps after ~700 shadowings.)"""
+    hof = r.choice(["(map (lambda (x) (+ (* x 3) %d)) xs)", "(filter (lambda (x) (> (+ x %d) 2)) xs)",
+                    "(map (lambda (x) (+ x limit %d)) xs)", "(let ((f (lambda (x) (- x %d)))) (map f xs))"])
+    period = r.choice([20, 25, 40])
+    units = []
+    for i in range(n):
+        units.append(("reload", "(define limit 10)\n(define (scale xs) %s)" % (hof % i)))
+        units.append(("keep-version", "(define keep-%d scale)" % i))
+        if i % period == period - 1:
+            for k in range(r.choice([10, 30])):
+                units.append(("filler", "(define (w-%d-%d) (list %d %d))" % (i, k, i, k)))
+            back = list(range(max(0, i - 60), i + 1))
+            units.append(("probe", "\n".join("(verif-emit (keep-%d (list 1 2 3)))" % j for j in back)))
+    return units
+
+
+def gen_dispatch_scenario(r, fillers):
+    """Handlers, a table of closures calling them (list / vector / hash / nested / captured by a closure / in a struct field)
+    and dispatchers compiled against the table; then handlers, table and constants are all redefined, and hundreds of
+    unrelated definitions follow: the *old* dispatchers (still bound) must keep calling the old table's closures and these
+    the old handlers."""
+    units = [("define-fn", "(define (on-start) 'start-v1)"), ("define-fn", "(define (on-stop x) (list 'stop-v1 x))"),
+             ("define-var", "(define limit 10)"), ("define-struct", "(struct vf-holder (items))")]
+    e = ["(lambda () (on-start))", "(lambda () (on-stop 1))", "(lambda () limit)"]
+    shape = r.choice(["list", "vector", "hash", "nested", "closure", "struct"])
+    if shape == "list":
+        t, get = "(list %s)" % " ".join(e), "(list-ref table i)"
+    elif shape == "vector":
+        t, get = "(vector %s)" % " ".join(e), "(vector-ref table i)"
+    elif shape == "hash":
+        t, get = "(hash 0 %s 1 %s 2 %s)" % tuple(e), "(hash-ref table i)"
+    elif shape == "nested":
+        t, get = "(list (vector %s %s) (hash 'k (list %s)))" % tuple(e), "(if (< i 2) (vector-ref (car table) i) (car (hash-ref (car (cdr table)) 'k)))"
+    elif shape == "closure":
+        t, get = "(let ((items (list %s))) (lambda (i) (list-ref items i)))" % " ".join(e), "(table i)"
+    else:
+        t, get = "(vf-holder (list %s))" % " ".join(e), "(list-ref (vf-holder-items table) i)"
+    units += [("define-dispatch-table", "(define table %s)" % t), ("define-fn", "(define (dispatch i) (%s))" % get)]
+    probe = "\n".join("(verif-emit (dispatch %d))" % i for i in range(3)) + "\n(verif-emit (list (on-start) (on-stop 2) limit))"
+    units.append(("probe", probe))
+    units += [("define-fn", "(define (on-start) 'start-v2)"), ("define-fn", "(define (on-stop x) 'stop-v2)"), ("define-var", "(define limit 20)"),
+              ("define-dispatch-table", "(define table (list (lambda () 'other-table)))"), ("probe", probe)]
+    for i in range(1, fillers + 1):
+        units.append(("define-var", "(define v %d)" % i))
+        if i % 50 == 0:
+            for k in range(20):
+                units.append(("filler", "(define (w-%d-%d) (list %d %d))" % (i, k, i, k)))
+            units.append(("probe", probe))
+    return units
+
+
 def reference_history(units):
     m = R.Machine(fuel=400000)
     out = []
@@ -154,8 +234,30 @@ def main(tier):
     nh, nu = (48, 260) if tier == "quick" else (1200, 900)
     r = core.rng("C06")
     hists = []
-    for i in range(nh):
-        units = gen_history(r, nu if i % 3 else nu // 4)
+    for k in range(2 if tier == "quick" else 10):
+        units = gen_reload_scenario(r, 900)
+        ref = reference_history(units)
+        if ref is not None:
+            hists.append((units, ref))
+    for k in range(6 if tier == "quick" else 60):
+        units = gen_dispatch_scenario(r, r.choice([450, 700]))
+        ref = reference_history(units)
+        if ref is not None:
+            hists.append((units, ref))
+    nscen = len(hists)
+    rep.note("scenario_histories", nscen)
+    for units, ref in hists:
+        bad_probe = [u for (kind, u), o in zip(units, ref) if kind == "probe" and o[0] != "ok"]
+        if bad_probe:
+            # a scenario whose probes fail in the reference observes nothing (the first version of the dispatch scenario
+            # called the result of the table's closure and every probe was an error on both sides)
+            rep.inconclusive_note("a scenario history's probe fails in the reference: %s" % bad_probe[0][:120], floor=True)
+            break
+    nlong = 3 if tier == "quick" else 12
+    for i in range(nh + nlong):
+        # a few *long* histories: the global-slot recycler's threshold (100, 200, .. 800, then 100 again) wraps only after
+        # several hundred shadowings, and some of its states are only reached then
+        units = gen_history(r, (nu if i % 3 else nu // 4) if i < nh else 2600)
         ref = reference_history(units)
         if ref is not None:
             hists.append((units, ref))
